@@ -9,14 +9,18 @@
 
    Guard (boolean, see Proofs/ValidateGate.v):
      self_guard  - the name `self` arrives only as the implicit first positional argument and is not the name
-                   of a Parameter (fn_deco_validate.py treats that name specially).
+                   of a Parameter.  fn_deco_validate.py passes the value stored under the key 'self' as first positional
+                   argument however it got there; outside the guard the statements are FALSE on the current source
+                   (C12_gate_self_refuted, C12_default_cascade_self_refuted; open finding C12-K3).
+   The functional statement is C12_run_meets_spec: on well-formed declarations and calls the run ends exactly as the
+   independent specification Spec/ValidateSpec.v (spec_outcome, the oracle of the harness) demands.
    History: until /repo commit d10af45 `_as_args` fell back to arrival order when a name outside the signature
    reached a function without **kwargs (finding C12-K1, then C12_gate_refuted / C12_gate_partial); the fallback is
    gone, the configuration field aa_arrival_on_unknown_key is false, and the gate holds without that guard.
    C12_K1_witness_fixed keeps the old witness.                                                                *)
 From Coq Require Import List Arith Bool Permutation.
 From PV Require Import Base.Exn Model.ValidateSem Spec.ValidateSpec Proofs.ValidateDict Proofs.ValidateRef
-  Proofs.ValidateBind Proofs.ValidateGate Proofs.ValidateByName Gen.Validate.
+  Proofs.ValidateBind Proofs.ValidateGate Proofs.ValidateByName Proofs.ValidateSpecLink Gen.Validate.
 Import ListNotations.
 
 Definition vrun {value : Type} (is_none : value -> bool) :=
@@ -64,6 +68,45 @@ Theorem C12_gate : forall value is_none sg env dc is_async c j b,
 Proof. intros value is_none. rewrite vrun_ref. apply gate. Qed.
 Print Assumptions C12_gate.
 
+(* THE MODEL MEETS THE SPECIFICATION.  Declaration and call well-formed (Parameter names and signature names
+   pairwise distinct; at most as many positionals as positional parameters, no name twice, self only as implicit
+   first positional), no Parameter named self, every exception_type a ParameterException, the Flask strict-JSON
+   clause silent: the run ends as spec_outcome demands -
+     DRaise rs        : the body does not run; the exception derives from one of the demanded classes and carries
+                        the demanded parameter name (where one is demanded);
+     DPythonRejects   : the body does not run, Python's TypeError (a parameter without default gets no value);
+     DBody b          : (every name that reaches the function is a parameter of it, or it takes **kwargs) the body
+                        runs and sees exactly b, name by name.
+   In particular: a value the caller supplies for a declared name reaches the body as the chain output, never as
+   the signature default; an implementation that preferred defaults or dropped supplied values would not do. *)
+Theorem C12_run_meets_spec : forall value is_none sg env dc c is_async,
+  decl_wellformed value sg dc = true -> call_wellformed value sg c = true ->
+  declared value dc self_name = false ->
+  (forall p, In p (d_params dc) -> derives (p_exc p) ParameterExceptionC = true) ->
+  snd (flask_m value env dc) = WOk tt ->
+  match spec_outcome value is_none sg dc c with
+  | DRaise rs => exists e pn, snd (vrun is_none sg env dc is_async c) = FRaise e pn /\ raise_allowed e pn rs
+  | DPythonRejects => snd (vrun is_none sg env dc is_async c) = FRaise TypeErrorC None
+  | DBody b => names_fit value sg dc c = true ->
+               exists b', snd (vrun is_none sg env dc is_async c) = FBody b' /\ deq b' b
+  end.
+Proof. intros value is_none. rewrite vrun_ref. intros. now apply run_meets_spec. Qed.
+Print Assumptions C12_run_meets_spec.
+
+(* the same for one supplied value, without the well-formedness of the rest: what the caller passes for n reaches
+   the body through the chain of the Parameter declared for n, and unchanged if none is declared *)
+Theorem C12_supplied_reaches_body : forall value is_none sg env dc is_async c j b n w,
+  d_ignore_input dc = false -> List.length (c_args c) <= List.length (pos_params value sg) ->
+  NoDup (keys (named_assignment value sg c)) -> self_guard value sg dc c = true ->
+  vrun is_none sg env dc is_async c = (j, FBody b) -> In (n, w) (named_assignment value sg c) ->
+  match lookup_param value dc n with
+  | Some p => forall v, spec_param value is_none p w = VPass v ->
+              (d_mode dc <> KWARGS_WITHOUT_NONE \/ is_none v = false) -> dget n b = Some v
+  | None => (d_mode dc <> KWARGS_WITHOUT_NONE \/ is_none w = false) -> dget n b = Some w
+  end.
+Proof. intros value is_none. rewrite vrun_ref. apply supplied_reaches_body. Qed.
+Print Assumptions C12_supplied_reaches_body.
+
 (* ---- a small universe for witnesses: values are numbers, 0 plays None ---- *)
 Definition nnone (v : nat) : bool := Nat.eqb v 0.
 Definition at_most (k : nat) : vfun nat := fun v => if Nat.leb v k then Ok v else Raise ValidatorExceptionC.
@@ -87,6 +130,44 @@ Example C12_K1_witness_fixed :
   self_guard nat k1_sig k1_deco k1_call = true /\ names_fit nat k1_sig k1_deco k1_call = false /\
   vrun nnone k1_sig no_env k1_deco false k1_call = ([(1, 0, 1)], FRaise TypeErrorC None).
 Proof. repeat split. Qed.
+
+(* outside self_guard (open finding C12-K3): @validate(strict=False) def g(a=1, **kw); g(self=5) runs the body with
+   a=5 - the value passed under the undeclared name self is bound to the first parameter (names: self=0, a=1) *)
+Theorem C12_gate_self_refuted : exists sg env dc is_async c j b n v,
+  self_guard nat sg dc c = false /\
+  vrun nnone sg env dc is_async c = (j, FBody b) /\ In (n, v) b /\ ~ origin nat nnone sg dc c n v.
+Proof.
+  exists {| s_params := [{| sp_name := 1; sp_kwonly := false; sp_default := Some 1 |}]; s_varkw := true |}, no_env,
+    {| d_params := []; d_mode := KWARGS_WITH_NONE; d_strict := false; d_ignore_input := false |}, false,
+    {| c_args := []; c_kwargs := [(0, 5)] |}, [], [(1, 5)], 1, 5.
+  repeat split; try reflexivity.
+  - now left.
+  - intro H. destruct H as [p w Ip _ _ _|p w Ip _ _ _ _|p Ip _ _ _|sp Isp Hn D _|_ [_ G] _].
+    + destruct Ip.
+    + destruct Ip.
+    + destruct Ip.
+    + destruct Isp as [<-|[]]. discriminate D.
+    + cbn in G. destruct G as [G|[]]. discriminate G.
+Qed.
+Print Assumptions C12_gate_self_refuted.
+
+(* ... and a Parameter named self: @validate(Parameter('self', default=3, required=False)) def c(a=1, **kw); c() runs
+   the body with a=3; the default never arrives under its own name *)
+Theorem C12_default_cascade_self_refuted : exists sg env dc is_async c j b p d,
+  self_guard nat sg dc c = false /\ NoDup (map (@p_name nat) (d_params dc)) /\
+  vrun nnone sg env dc is_async c = (j, FBody b) /\
+  In p (d_params dc) /\ (forall w, ~ caller_gives nat sg dc c (p_name p) w) /\ no_external nat p /\
+  p_default p = Some d /\ d_mode dc <> KWARGS_WITHOUT_NONE /\ dget (p_name p) b <> Some d.
+Proof.
+  exists {| s_params := [{| sp_name := 1; sp_kwonly := false; sp_default := Some 1 |}]; s_varkw := true |}, no_env,
+    {| d_params := [mkparam 0 [] false (Some 3)]; d_mode := KWARGS_WITH_NONE; d_strict := true; d_ignore_input := false |},
+    false, {| c_args := []; c_kwargs := [] |}, [], [(1, 3)], (mkparam 0 [] false (Some 3)), 3.
+  repeat split; try reflexivity; try discriminate.
+  - repeat constructor. cbn. tauto.
+  - now left.
+  - intros w [_ G]. destruct G.
+Qed.
+Print Assumptions C12_default_cascade_self_refuted.
 
 (* ANY REJECTION RAISES BEFORE THE BODY.  A value the caller passes for a declared Parameter that does not pass
    the chain (rejected at any position, or a foreign exception in a validator): the body does not run *)
@@ -112,6 +193,53 @@ Theorem C12_first_rejection_no_body : forall value is_none sg env dc is_async c 
    FRaise (p_exc p) (Some (fst (snd x)))).
 Proof. intros value is_none. rewrite vrun_ref. apply first_rejection. Qed.
 Print Assumptions C12_first_rejection_no_body.
+
+(* the same for ANY failing step (rejection, foreign exception of a validator or of the conversion, undeclared
+   argument under strict): everything in front passed, the step of x raises (e, pn) - exactly that leaves *)
+Theorem C12_first_failure_wins : forall value is_none sg env dc is_async c pre x post e pn,
+  arrival value sg dc c = Some (pre ++ x :: post) ->
+  Forall (fun y => exists v, snd (snd (titem value is_none dc y)) = WOk v) pre ->
+  snd (snd (titem value is_none dc x)) = WRaise e pn ->
+  vrun is_none sg env dc is_async c =
+  (flat_map (fun y => fst (snd (titem value is_none dc y))) pre ++ fst (snd (titem value is_none dc x)), FRaise e pn).
+Proof. intros value is_none. rewrite vrun_ref. apply first_failure_arrival. Qed.
+Print Assumptions C12_first_failure_wins.
+
+(* ... and in the unused-parameter loop: every argument passed, the Parameters without argument in front of p (in
+   declaration order) got their value, the step of p raises (e, pn) - exactly that leaves.  The step of p is
+   u_m p = (C12_unused_step_outcome) the chain on the value of its external source if it has one (a raising source:
+   that exception), else: required -> exception_type with the parameter name; Parameter default; signature
+   default; ValidateException *)
+Theorem C12_first_failure_unused : forall value is_none sg env dc is_async c xs pre p post e pn,
+  arrival value sg dc c = Some xs ->
+  Forall (fun y => exists v, snd (snd (titem value is_none dc y)) = WOk v) xs ->
+  unused_params value dc (useds value dc (map snd xs)) = pre ++ p :: post ->
+  Forall (fun q => exists v, snd (u_m value is_none sg q) = WOk v) pre ->
+  snd (u_m value is_none sg p) = WRaise e pn ->
+  vrun is_none sg env dc is_async c =
+  (flat_map (fun y => fst (snd (titem value is_none dc y))) xs ++ flat_map (fun q => fst (u_m value is_none sg q)) pre
+     ++ fst (u_m value is_none sg p), FRaise e pn).
+Proof. intros value is_none. rewrite vrun_ref. apply first_failure_unused. Qed.
+Print Assumptions C12_first_failure_unused.
+
+Theorem C12_unused_step_outcome : forall value is_none sg (p : param value),
+  u_m value is_none sg p =
+  match p_ext p with
+  | Some x => if e_has x then match e_load x with Ok w => vvalidate is_none p w | Raise y => ([], WRaise y None) end
+              else cascade_outcome value sg p
+  | None => cascade_outcome value sg p
+  end
+  /\ cascade_outcome value sg p =
+     (if spec_required value p then ([], WRaise (p_exc p) (Some (p_name p)))
+      else match p_default p with
+           | Some d => ([], WOk d)
+           | None => match sig_default value sg (p_name p) with
+                     | Some d => ([], WOk d)
+                     | None => ([], WRaise ValidateExceptionC None)
+                     end
+           end).
+Proof. intros. rewrite vvalidate_ref. split; [apply unused_outcome | reflexivity]. Qed.
+Print Assumptions C12_unused_step_outcome.
 
 (* an exception that carries a parameter name comes from the Parameter of that name: it rejected the value the
    caller / its external source gave, or it is required and got no value *)
@@ -209,3 +337,24 @@ Example C12_default_cascade_hypotheses_satisfiable :
     ([(1, 0, 3); (1, 1, 3); (2, 0, 1)], FBody [(1, 4); (2, 2); (3, 4)]) /\
   NoDup (map (@p_name nat) (d_params (ex_deco KWARGS_WITHOUT_NONE true))).
 Proof. split; [reflexivity|]. repeat constructor; cbn; intuition discriminate. Qed.
+
+Example C12_run_meets_spec_hypotheses_satisfiable :
+  let dc := ex_deco ARGS true in
+  let c := {| c_args := [3; 4; 6]; c_kwargs := [] |} in
+  decl_wellformed nat ex_sig dc = true /\ call_wellformed nat ex_sig c = true /\ declared nat dc self_name = false /\
+  snd (flask_m nat no_env dc) = WOk tt /\ names_fit nat ex_sig dc c = true /\
+  (* def f(a, b, c=9); f(3, 4, 6): the supplied 6 is demanded for c, not the signature default 9 *)
+  spec_outcome nat nnone ex_sig dc c = DBody [(1, 4); (2, 5); (3, 6)] /\
+  snd (vrun nnone ex_sig no_env dc false c) = FBody [(1, 4); (2, 5); (3, 6)] /\
+  spec_outcome nat nnone ex_sig dc {| c_args := [9]; c_kwargs := [(3, 1)] |}
+    = DRaise [(ParameterExceptionC, Some 1); (ValidateExceptionC, None)].
+Proof. repeat split. Qed.
+
+(* a required Parameter without value in the unused-parameter loop: exactly its exception with its name *)
+Example C12_first_failure_unused_hypotheses_satisfiable :
+  let dc := ex_deco ARGS true in
+  let c := {| c_args := [3]; c_kwargs := [] |} in
+  arrival nat ex_sig dc c = Some [(true, (1, 3))] /\
+  unused_params nat dc (useds nat dc (map snd [(true, (1, 3))])) = [] ++ mkparam 2 [plus_one] true None :: [mkparam 3 [] false (Some 4)] /\
+  vrun nnone ex_sig no_env dc false c = ([(1, 0, 3); (1, 1, 3)], FRaise ParameterExceptionC (Some 2)).
+Proof. repeat split. Qed.
